@@ -37,7 +37,7 @@ def variant_of(fs):
 
 def check(ctx):
     P = ctx.prog
-    w = ctx.need_fn(CR, "UserPrmDataType::write_value_to_slice")
+    w = ctx.need_fn(CR, "UserPrmDataType::write_value_to_slice", expand=True)
     if w is None:
         return
     g = GuardAnalysis(w, P)
@@ -142,28 +142,35 @@ def check(ctx):
     for f in P.crate_fns(CR):
         for b, c in call_sites(f, lambda c: (c.get("callee") or "") == w.name):
             callers.append((f, b, c))
-    names = sorted({f.name.split("::")[-1] for f, b, c in callers})
-    ctx.ob("c.atomic", "writer-callers", names == ["write_constrained_value_to_slice", "write_default_prm_data"], "write_value_to_slice must only be reached through the constrained writer and the default writer, callers: %s" % names)
+    # two roles, told apart by what is written (not by where the call lives): the definition's default value while the block is built,
+    # or a caller supplied value, which must have passed the declared constraint
+    roles = {}
     for f, b, c in callers:
-        if f.name.endswith("write_constrained_value_to_slice"):
+        roles[(f.name, b)] = "default" if "default_value" in show(TermBuilder(f, P).joperand(c["args"][1])) else "constrained"
+    names = sorted({f.name.split("::")[-1] for f, b, c in callers})
+    ctx.ob("c.atomic", "writer-callers", sorted(roles.values()) == ["constrained", "default"],
+           "write_value_to_slice must be called exactly twice: with a constraint-checked value and with the default value while building, callers: %s roles: %s" % (names, sorted(roles.values())))
+    for f, b, c in callers:
+        if roles[(f.name, b)] == "constrained":
             gf = GuardAnalysis(f, P)
             ok, w_ = M.all_disj(gf.at(b), lambda k: k[0] == "discr" and M.mentions(k[1], M.t_call("assert_valid")), {"Continue"})
             args = [gf.tb.joperand(a) for a in c["args"]]
             same = [gf.tb.joperand(x["args"][1]) for bb, x in call_sites(f, lambda x: callee_is(x, "assert_valid"))]
             ctx.ob("c.atomic", "constraint-before-write", ok and same and same[0] == args[1],
                    "the value is written before (or without) the declared range / enumeration check of the same value: " + w_, f.loc(b))
-        if f.name.endswith("write_default_prm_data"):
+        if roles[(f.name, b)] == "default":
             tbf = TermBuilder(f, P)
             marks = {(b, None): "w"}
             for ub, uc in call_sites(f, lambda x: callee_is(x, "update_prm_data_len")):
                 marks[(ub, None)] = "len"
             gf = GuardAnalysis(f, P, marks=marks, iter_marks=("w", "len"))
             bad = []
-            for src, head in f.back_edges():
+            mine = [(src, head) for src, head in f.back_edges() if b in f.natural_loop(src, head)]  # the loop(s) over the references
+            for src, head in mine:
                 for fs in gf.at(src):
                     if gf.count_of(fs, "w") != {1} or gf.count_of(fs, "len") != {1}:
                         bad.append(M.fmt_facts(fs)[:200])
-            ctx.ob("c.atomic", "defaults-unconditional", not bad and bool(f.back_edges()),
+            ctx.ob("c.atomic", "defaults-unconditional", not bad and bool(mine),
                    "a parameter's default value is not written on every iteration over the references (e.g. skipped for some values), leaving constant bytes underneath un-overlaid: " + "; ".join(bad[:2]), f.loc(b))
             a = tbf.joperand(c["args"][1])
             ctx.ob("c.atomic", "default-value-source", "default_value" in show(a), "the default writer must write the definition's default_value, found " + show(a), f.loc(b))
